@@ -340,6 +340,9 @@ func cmdCheck(args []string) int {
 			}
 			cfgB := cfg
 			cfgB.Unroll = k
+			if cfgB.TimeoutS > 15 {
+				cfgB.TimeoutS = 15 // only refutations matter here, and they come fast or not at all
+			}
 			repB := func() (r *FuncReport) {
 				defer func() {
 					if e := recover(); e != nil {
